@@ -125,6 +125,30 @@ func runC04(c *Ctx) {
 	c.rule("R04.5", "each frame is dispatched once; each call is handed to the dispatcher exactly once, on its own goroutine")
 	c.rule("R04.6", "single user-call site outside any loop, dominating the success reply")
 	c.rule("R04.7", "HTTP transport request is not replayable by net/http")
+	c.rule("R04.10", "a notification executes like a call: no rejection before the handler depends on the request's id")
+	c.rejectionReasons("R04.10")
+	c.rule("R04.11", "the HTTP transport performs the exchange inside the call (a notification has been delivered when the call returns; the request is bound to the caller's context, which may be cancelled right after)")
+	{
+		n := 0
+		for _, fn := range p.Funcs {
+			if pkgOf(fn) != p.Root.Pkg {
+				continue
+			}
+			allInstrsRaw(fn, func(in ssa.Instruction) {
+				ci, ok := in.(ssa.CallInstruction)
+				if !ok || calleeName(ci) != "(*net/http.Client).Do" {
+					return
+				}
+				n++
+				construct := fmt.Sprintf("%s: HTTP exchange", fname(fn))
+				_, isGo := in.(*ssa.Go)
+				c.check(!isGo && !c.spawnedAsGoroutine(fn), "R04.11", construct, c.ipos(in), "performed synchronously by the caller's goroutine", "the HTTP request is sent from a background goroutine: the call (a notification) returns before it is sent, and since the request carries the caller's context, a caller that cancels right after the call returns (defer cancel()) makes the notification never execute")
+			})
+		}
+		if n == 0 {
+			c.ok("R04.11", "HTTP exchange", "-", "no (*http.Client).Do in the library package")
+		}
+	}
 	c.rule("R04.9", "every proxy field gets a call descriptor of its own (its retry / notify flags are not shared with other fields)")
 	c.descriptorPerField("R04.9")
 	c.rule("R04.8", "inbound frames are decoded into fresh memory")
